@@ -14,6 +14,9 @@ from . import spec as SP
 from . import builtins as BI    # noqa  (registers handlers)
 
 
+MUTANTS = {}    # self-test only: qual -> (old text, new text), applied in memory to the parsed function
+
+
 class FunctionResult(object):
     def __init__(self, qual):
         self.qual = qual
@@ -100,6 +103,8 @@ class Engine(object):
             if c is None:
                 raise Unsupported('no contract registered for %s' % qual)
             fi = front.find_function(c.variant_of or qual)
+            if mutate is None and qual in MUTANTS:
+                mutate = MUTANTS[qual]
             if mutate is not None:
                 # in-memory mutant: textual edit of the function's own source segment, re-parsed
                 import textwrap
@@ -166,9 +171,9 @@ class Engine(object):
                 for lab, text in c.labelled(c.ensures):
                     g = SP.SpecEval(o.st, ex.old_state.env, modname, old=ex.old_state, result=o.val,
                                     extra=ex.let_values).bool(text)
-                    ex.oblige(o.st, g, 'post[%s]@%s' % (lab, o.site), 'post')
+                    ex.oblige(o.st, g, 'post[%s]@%s' % (lab, o.site), 'post', {'outcome': o})
                 if not isinstance(c.returns, Ty.TAny):
-                    ex.oblige(o.st, shape(o.st, o.val.term, c.returns), 'rettype@%s' % o.site, 'post')
+                    ex.oblige(o.st, shape(o.st, o.val.term, c.returns), 'rettype@%s' % o.site, 'post', {'outcome': o})
                 self.frame_obligations(ex, c, o, modname)
             elif o.kind == 'raise':
                 site = o.site or 'raise'
@@ -177,10 +182,11 @@ class Engine(object):
                 self.raise_obligations(ex, c, o, modname, site)
             else:
                 raise Unsupported('%s outside a loop' % o.kind)
+        touched = set(ex.old_state.heap)
+        for o in outs:
+            touched |= set(o.st.heap)
+        res.old_state, res.params, res.touched = ex.old_state, params, touched
         if SP.BOUND[0] is not None:
-            touched = set(ex.old_state.heap)
-            for o in outs:
-                touched |= set(o.st.heap)
             for p in params:
                 sv = ex.old_state.env[p]
                 SP.BOUND_SIDE.extend(deep_shape(ex.old_state, sv.term, sv.ty, touched, SP.BOUND[0], 4))
@@ -196,13 +202,14 @@ class Engine(object):
         exc = o.exc
         alts = []
         matched_specs = []
+        rids = SP.raise_ids(c, modname)
         for exname, rspec in c.raises.items():
             when = rspec if isinstance(rspec, str) else rspec.get('when', 'True')
-            clsq = front.resolve_exc_name(modname, exname)
+            clsq, ids = rids[exname]
             if exc.cid is None:
-                m = z3.BoolVal(front.is_subclass(exc.clsq, clsq))
+                m = z3.BoolVal(front.cls_id(exc.clsq) in ids)
             else:
-                m = Or(*[exc.cid == i for i in front.subclass_ids(clsq)])
+                m = Or(*[exc.cid == i for i in ids])
             if z3.is_false(m):
                 continue
             cond = SP.SpecEval(ex.old_state, ex.old_state.env, modname, extra=ex.let_values).bool(when)
@@ -210,7 +217,7 @@ class Engine(object):
             matched_specs.append((exname, rspec, m))
         label = exc.clsq.split(':')[1] if exc.cid is None else 'symbolic'
         ex.oblige(o.st, Or(*alts) if alts else FALSE, 'raises[%s]@%s' % (label, site), 'raises',
-                  {'exception': exc.clsq})
+                  {'exception': exc.clsq, 'outcome': o})
         for exname, rspec, m in matched_specs:
             if isinstance(rspec, dict):
                 for lab, text in c.labelled(rspec.get('ensures', [])):
